@@ -427,7 +427,8 @@ func (rl *respDeserializer) getDouble(line string) (value respDouble, valid bool
 }
 
 func (rl *respDeserializer) getNextArray(count int) (value respArray, valid bool) {
-	a := make(respArray, 0, count)
+	// the declared count is client input: do not allocate by it
+	a := make(respArray, 0)
 
 	for i := 0; i < count; i++ {
 		var v respValue
@@ -441,7 +442,7 @@ func (rl *respDeserializer) getNextArray(count int) (value respArray, valid bool
 }
 
 func (rl *respDeserializer) getNextMap(pairs int) (value respMap, valid bool) {
-	m := newRespMapSized(pairs)
+	m := newRespMap()
 
 	for i := 0; i < pairs; i++ {
 		var k, v respValue
@@ -460,7 +461,7 @@ func (rl *respDeserializer) getNextMap(pairs int) (value respMap, valid bool) {
 }
 
 func (rl *respDeserializer) getNextAttributeMap(pairs int) (value respAttributeMap, valid bool) {
-	m := make(respAttributeMap, pairs)
+	m := make(respAttributeMap)
 
 	for i := 0; i < pairs; i++ {
 		var k, v respValue
@@ -479,7 +480,7 @@ func (rl *respDeserializer) getNextAttributeMap(pairs int) (value respAttributeM
 }
 
 func (rl *respDeserializer) getNextSet(count int) (value respSet, valid bool) {
-	s := make(respSet, count)
+	s := make(respSet)
 
 	for i := 0; i < count; i++ {
 		var v respValue
@@ -494,7 +495,7 @@ func (rl *respDeserializer) getNextSet(count int) (value respSet, valid bool) {
 }
 
 func (rl *respDeserializer) getNextPush(count int) (value respPush, valid bool) {
-	a := make([]respValue, 0, count)
+	a := make([]respValue, 0)
 	p := respPush{}
 
 	var v respValue
